@@ -967,6 +967,11 @@ def step_setitem(b: Builder):
     v = _value_for(b, sel_shape)
     if v is None:
         return None
+    if kind != "basic" and b.val(v).size > 0 and np.shares_memory(b.val(v), b.val(t)):
+        # NumPy does not define the result of an advanced/boolean-index assignment whose value overlaps the target
+        # (it may read elements it has just written; MyGrad reads the value first)
+        b.labels.add("excluded_overlapping_fancy_assignment")
+        return None
     s = {"k": "inplace", "kind": "setitem", "target": t, "args": [v], "p": {"index": index}}
     if b.try_emit(s):
         b.labels.add("setitem_" + kind)
@@ -1209,10 +1214,13 @@ def step_fail(b: Builder, kind=None, a=None):
             inner = {"k": "inplace", "kind": "out", "op": "add", "target": t, "args": [t, bad], "p": p}
     elif kind == "shape_assign_copy":
         # assigning a shape that would need a copy (non-contiguous tensor): NumPy refuses
-        cands = [h for h in writable_targets(b) if b.val(h).ndim >= 2 and not b.val(h).flags.c_contiguous and b.val(h).size > 1]
+        # (only memory that a *leaf* owns: the layout of an op result is the kernel's choice - K-order of whatever the
+        #  operands' strides were - and the reference may compute the same values with another formula and layout)
+        leaf_owned = [h for h in writable_targets(b) if b.ref.owner.get(h) in b.ref.kind]
+        cands = [h for h in leaf_owned if b.val(h).ndim >= 2 and not b.val(h).flags.c_contiguous and b.val(h).size > 1]
         if not cands:
             # make one: transpose a tensor that has >= 2 axes of length >= 2
-            src = [h for h in writable_targets(b) if sum(1 for x in b.shape(h) if x >= 2) >= 2]
+            src = [h for h in leaf_owned if sum(1 for x in b.shape(h) if x >= 2) >= 2]
             if not src:
                 return None
             t0 = b.pick(src)
